@@ -49,6 +49,10 @@ def run_witness(w):
                 n = len([e for e in ev if e.startswith(chk['value'])])
                 if n != chk['count']: bad = True; why.append('%d events with prefix %r, required %d' % (n, chk['value'], chk['count']))
         return {'events': ev, 'violates': bad, 'why': why, 'required': w.get('required')}
+    if kind == 'history':
+        import refmodel
+        r = refmodel.run_history(_dec(w['ops']))
+        return {'violates': r is not None, 'mismatch': r, 'required': w.get('required')}
     if kind == 'conc':
         import subprocess
         r = subprocess.run([replaytool.REPLAY_BIN, 'conc'], input='\n'.join(w['lines']) + '\n', capture_output=True, text=True, timeout=120)
@@ -134,4 +138,38 @@ def gen_delete(pid, f):
         got = [resp_status(e) if e.startswith('resp ') else e for e in rs]
         if got != want:
             return {'kind': 'session', 'lines': lines, 'expect': [{'type': 'statuses', 'value': want}], 'required': what, 'what': what, 'observed': ev}
+    return None
+
+# ------------------------------------------------------------------------------------------------
+# store / handler obligations: the reference model of the property statements (tools/refmodel.py) is run over its
+# boundary catalogue and seeded random histories against the real request path; the first step where the real code
+# disagrees with the statements is the witness.
+def _enc(o):
+    if isinstance(o, bytes): return {'__b': o.hex()}
+    if isinstance(o, dict): return {k: _enc(v) for k, v in o.items()}
+    if isinstance(o, list): return [_enc(x) for x in o]
+    return o
+def _dec(o):
+    if isinstance(o, dict) and '__b' in o: return bytes.fromhex(o['__b'])
+    if isinstance(o, dict): return {k: _dec(v) for k, v in o.items()}
+    if isinstance(o, list): return [_dec(x) for x in o]
+    return o
+
+@generator(r'server/(store\.|memc\.|handler\.|handle_request|check_if_expired|get_by_key|cache\.get|set\.safety|add_delta|flush\.safety|into_|storage_error|meta\.|record\.)|codec_dec/parse_(set|get|delete|append|inc|flush|header_only|not_supported)|kani/store_delete')
+def gen_refmodel(pid, f):
+    import refmodel, os
+    seed = int(os.environ.get('VERIF_SEED', '0') or 0)
+    for h in refmodel.boundary_histories():
+        r = refmodel.run_history(h)
+        if r:
+            return {'kind': 'history', 'ops': _enc(h), 'what': r['why'], 'required': 'every step of the history agrees with the reference model of the property statements (tools/refmodel.py)',
+                    'first_mismatch_step': r['step'], 'session_lines': r['lines'], 'observed': r['observed']}
+    import random
+    rng = random.Random(seed)
+    for _ in range(150):
+        h = refmodel.random_history(rng)
+        r = refmodel.run_history(h)
+        if r:
+            return {'kind': 'history', 'ops': _enc(h), 'what': r['why'], 'required': 'every step of the history agrees with the reference model of the property statements (tools/refmodel.py)',
+                    'first_mismatch_step': r['step'], 'session_lines': r['lines'], 'observed': r['observed']}
     return None
